@@ -45,6 +45,12 @@ CLAIMED["C03"] = dict(
    technique="Lean 4 inductive invariant over an unbounded-thread LTS + schedule-controlled correspondence with the real crate + Lean monitor on implementation traces",
    design="§6 C03")
 
+CLAIMED["C04"] = dict(
+   text="Lean 4 theorems about ChanProto, an LTS of channel()/sync_channel(n) for every n and every drain budget >= 1, any number of sender threads and every interleaving of push / wake-write / pop steps: exactly_once_in_order (pushed = delivered ++ queued at every reachable state), closed_once_and_last, no_stranded_message and closed_is_owed (a queued message or a pending Closed always has a wake-up pending: counter >= 2, or a thread about to write, or the loop mid-drain / about to re-ping) by an 19-clause inductive invariant, removed_is_final, drain_makes_room; C04_sync0_false proves the blocking-send clause FALSE for the rendezvous channel by an explicit 8-step schedule ending in a state with no enabled loop or sender step (finding F9, replayed deterministically on the real crate). The real channel is run under controlled thread schedules and compared step by step with the model.",
+   note="Trusted: Lean kernel + standard axioms; std mpsc modelled as a linearizable FIFO; eventfd as an atomic counter; yield-point hooks + scheduler harness; schedules are sampled. Known finding F9 (sync_channel(0)) is reported as KNOWN-FINDING; the bounded-send progress clause is proved as safety (wake invariant + enabledness), no fairness axiom.",
+   technique="Lean 4 inductive invariants over an unbounded-thread LTS + explicit counter-example theorem + schedule-controlled correspondence with the real crate",
+   design="§6 C04")
+
 PENDING_REASON = "not claimed yet in this revision: model and theorems are being built (see DESIGN.md §12 build order); no check is registered rather than registering an unsound one"
 
 def main():
